@@ -243,3 +243,12 @@ Example a_for_each_pull_with_one_running :
   let h := hist_of P0 ops_fec in
   h = firstn 10 h ++ EUpPoll (UAItem 3%N) :: skipn 11 h /\ npull (firstn 10 h) = 2 /\ nprodc (firstn 10 h) = 1.
 Proof. vm_compute. repeat split; reflexivity. Qed.
+
+(** adapter_accounting in the middle of that history: three pulled = two yielded + one running *)
+Example accounting_mid_history :
+  let o := firstn 4 ops_up in
+  match st_coll (run_state P0 init_state o) with
+  | CAd a => npull (hist_of P0 o) = 3 /\ nyield (hist_of P0 o) = 2 /\ q_len (ad_q a) = 1
+  | _ => False
+  end.
+Proof. vm_compute. repeat split; reflexivity. Qed.
